@@ -14,6 +14,7 @@ import (
 	"math/big"
 	"math/rand"
 	"reflect"
+	"regexp"
 	"sort"
 	"strings"
 	"sync/atomic"
@@ -69,8 +70,13 @@ func c14tNew(c *Ctx) *c14tState {
 
 // fail counts every occurrence but keeps at most 3 (the shortest) witnesses per
 // signature; they are handed to c.Fail by flush() at the end.
+// Go pointers (e.g. a *interface{} printed by ChangeLog.String) must not reach the oracle file
+var c14tPtrRe = regexp.MustCompile(`\b0xc[0-9a-f]{9}\b`)
+
 func (t *c14tState) fail(sig, detail, replay string) {
 	t.c.Count("fail:" + sig)
+	detail = c14tPtrRe.ReplaceAllString(detail, "<ptr>")
+	replay = c14tPtrRe.ReplaceAllString(replay, "<ptr>")
 	if len(replay) > 6000 {
 		replay = replay[:6000] + fmt.Sprintf("...(truncated, %d chars)", len(replay))
 	}
@@ -322,6 +328,11 @@ func (m *c14tCmp) cmp(path string, a, b reflect.Value) {
 		return
 	}
 	if a.Kind() != b.Kind() {
+		if c14tEmptyLike(a) && c14tEmptyLike(b) {
+			// e.g. &Profile{} -> &[]interface{}{}: both empty; usability is judged by the Redo check
+			m.shape(c14tDesc(a) + "->" + c14tDesc(b))
+			return
+		}
 		m.diff(path, "kind "+a.Type().String()+" vs "+b.Type().String())
 		return
 	}
@@ -845,6 +856,7 @@ func c14tHeaderSigner(h *types.Header) string {
 type c14tTxMeta struct {
 	labels      []string
 	isBox       bool
+	nilSubs     bool
 	subHashes   []common.Hash
 	badNameUTF8 bool
 	badMsgUTF8  bool
@@ -934,7 +946,14 @@ func (t *c14tState) txTypedData(txType uint16, meta *c14tTxMeta, allowBox bool) 
 			meta.subHashes = append(meta.subHashes, hs)
 		}
 		meta.isBox = true
+		if len(subs) == 0 && t.rn(2) == 0 {
+			subs = types.Transactions{}
+		}
+		meta.nilSubs = subs == nil
 		meta.labels = append(meta.labels, fmt.Sprintf("box-subtxs=%d", len(subs)))
+		if subs == nil {
+			meta.labels = append(meta.labels, "box-subtxs=nil-slice")
+		}
 		var data []byte
 		err, pan := c14tTry(func() error {
 			var e error
@@ -1940,6 +1959,7 @@ func (t *c14tState) caseTx() {
 			nameOnly := meta.badNameUTF8 && !meta.badMsgUTF8
 			hj := c14tTxHash(j)
 			if hj != h0 {
+				c.Count(fmt.Sprintf("info:tx-json-hash-changed-cause:nonutf8-message=%v,nonutf8-toname=%v", meta.badMsgUTF8, meta.badNameUTF8))
 				if nameOnly {
 					c.Count("info:tx-json-nonutf8-toname-hash-changed")
 				} else {
@@ -1986,6 +2006,11 @@ func (t *c14tState) checkBox(stage string, tx *types.Transaction, meta *c14tTxMe
 			t.c.Count("info:box-getbox-rejects-own-sig-length")
 			return
 		}
+		if meta.nilSubs && pan == "" {
+			// MarshalBoxData(nil) writes {"subTxList":null} which GetBox rejects; the tx is then hashed like an ordinary tx
+			t.c.Count("info:box-marshal-nil-subtxlist-unparseable")
+			return
+		}
 		t.fail("c14/box-subtx-hash", "GetBox on a box built by MarshalBoxData ("+stage+"): "+c14tErrStr(err, pan), c14tHex(enc))
 		return
 	}
@@ -2004,6 +2029,7 @@ func (t *c14tState) checkBox(stage string, tx *types.Transaction, meta *c14tTxMe
 				t.c.Count("info:box-subtx-nonutf8-toname-hash-changed")
 				continue
 			}
+			t.c.Count(fmt.Sprintf("info:box-subtx-hash-changed-cause:nonutf8-message=%v", meta.badMsgUTF8))
 			t.fail("c14/box-subtx-hash", fmt.Sprintf("(%s) sub-tx %d: hash %s when packed, %s after GetBox%s; sub-tx now %s", stage, i, meta.subHashes[i].Hex(), got, why, c14tTxString(s)), string(tx.Data()))
 		}
 	}
